@@ -791,3 +791,160 @@ PROPS['C16'] = {
     'assumptions': ['linux build: the active platform is "linux"; environment variables are unavailable in new_from_str, so (environment ...) is an error',
                     'Debug renderings used for comparison do not show the key list captured by tap-hold-release-keys / tap-hold-except-keys closures; those are compared through the paired runs only'],
 }
+
+# ----------------------------------------------------------------------------------------- C20
+# Text-buffer semantics of lean/KVerif/Model/TextBuf.lean, applied to the implementation's OS trace.
+_C20_BSPC, _C20_SPC, _C20_LSFT, _C20_RSFT, _C20_RALT = 14, 57, 42, 54, 100
+_C20_OTHER_MODS = {29, 97, 56, 125, 126}
+
+
+def _c20_project(out):
+    """OS trace `t5 d30 u30 ...` -> `text <chars> mods <codes>` (what the application shows)."""
+    if out.startswith(('rej', 'crash', 'harness-error', 'bad-')) or re.match(r'^(v\d+|sub|no|e[01])( |$)', out):
+        return out           # rejected dictionary / SubsetMap family: compared as they are
+    text, lsft, rsft, ralt = [], False, False, False
+    for tok in ([] if out == '-' else out.split(' ')):
+        kind, val = tok[0], tok[1:]
+        if kind == 't':
+            continue
+        if not val.isdigit():
+            return 'unreadable ' + tok
+        k = int(val)
+        down = kind == 'd'
+        if k == _C20_LSFT:
+            lsft = down
+        elif k == _C20_RSFT:
+            rsft = down
+        elif k == _C20_RALT:
+            ralt = down
+        elif not down or k in _C20_OTHER_MODS:
+            continue
+        elif k == _C20_BSPC:
+            if text:
+                text.pop()
+        elif k == _C20_SPC:
+            text.append(str(k))
+        else:
+            text.append(('S' if (lsft or rsft) else '') + ('G' if ralt else '') + str(k))
+    mods = [str(c) for c, on in ((_C20_LSFT, lsft), (_C20_RSFT, rsft), (_C20_RALT, ralt)) if on]
+    return 'text ' + (','.join(text) or '-') + ' mods ' + (','.join(mods) or '-')
+
+
+def _c20_hist(case):
+    return case.split(' H ', 1)[1] if ' H ' in case else ''
+
+
+def _c20_nontrivial(case, impl):
+    if ' ssm ' in case:
+        return ' I 0 ' not in case
+    # a chord fired: the trace contains a backspace the user did not type, or more key-downs than presses
+    h = _c20_hist(case)
+    typed_bs = len(re.findall(r'\bp 14\b', h))
+    return len(re.findall(r'\bd14\b', impl)) > typed_bs or len(re.findall(r'\bd\d+', impl)) > len(re.findall(r'\bp \d+', h))
+
+
+def _c20_stats(cases, impl):
+    import collections
+    d = collections.Counter()
+    for c, i in zip(cases, impl):
+        if ' ssm ' in c:
+            d['subsetmap_cases'] += 1
+            continue
+        d['zch_cases'] += 1
+        if i.startswith('rej'):
+            d['dictionary_rejected'] += 1
+            continue
+        if i.startswith('crash'):
+            d['crash'] += 1
+            continue
+        d['chord_fired' if _c20_nontrivial(c, i) else 'no_chord_fired'] += 1
+        nl = int(re.search(r' D (\d+)', c).group(1))
+        d['dict_lines_%s' % ('1' if nl == 1 else '2_3' if nl <= 3 else '4_plus')] += 1
+        if re.search(r' L [23] ', c):
+            d['dict_has_followups'] += 1
+        if re.search(r' ss [12] ', c):
+            d['smart_space_on'] += 1
+        h = _c20_hist(c)
+        if re.search(r'\bp (42|54)\b', h):
+            d['shift_held'] += 1
+        if re.search(r'\bp 100\b', h):
+            d['altgr_held'] += 1
+        if re.search(r' O \d+ (?:\d+ \d+ )*?[1-7] \d+', c):
+            d['outputs_not_all_lowercase'] += 1
+    return dict(d)
+
+
+def _c20_shrink(case):
+    """Smaller variants: drop one history event, drop one dictionary line, halve a tick count."""
+    if ' ssm ' in case or ' H ' not in case:
+        return
+    head, h = case.split(' H ', 1)
+    toks = h.split()
+    evs = [(toks[i], toks[i + 1]) for i in range(1, len(toks) - 1, 2)]
+    def mk(head, evs):
+        return head + ' H ' + str(len(evs)) + ''.join(' %s %s' % e for e in evs)
+    for i in range(len(evs)):
+        yield mk(head, evs[:i] + evs[i + 1:])
+    for i, (k, v) in enumerate(evs):
+        if k == 't' and int(v) > 1:
+            yield mk(head, evs[:i] + [('t', str(int(v) // 2))] + evs[i + 1:])
+    m = re.match(r'^(.* D )(\d+)((?: L .*)?)$', head)
+    if m:
+        lines = [x for x in re.split(r' (?=L \d)', m.group(3).strip()) if x]
+        for i in range(len(lines)):
+            rest = lines[:i] + lines[i + 1:]
+            yield mk(m.group(1) + str(len(rest)) + ''.join(' ' + x for x in rest), evs)
+
+
+_C20_NAMES = {30: 'a', 48: 'b', 46: 'c', 32: 'd', 18: 'e', 2: '1', 52: '.', 51: ',', 57: 'spc', 39: ';', 45: 'x', 21: 'y',
+              44: 'z', 20: 't', 14: 'bspc', 42: 'lsft', 54: 'rsft', 100: 'ralt', 29: 'lctl'}
+
+
+def _c20_describe(case):
+    if ' ssm ' in case or ' H ' not in case:
+        return case
+    nm = lambda c: _C20_NAMES.get(int(c), 'k' + c)
+    kinds = ['', 'S-', 'AG-', 'S-AG-', 'noerase:', 'noerase:S-', 'noerase:AG-', 'noerase:S-AG-']
+    head, h = case.split(' H ', 1)
+    t = head.split()
+    out = ['deadline=%s idle-reactivate=%s smart-space=%s' % (t[5], t[3], ['none', 'add-space-only', 'full'][int(t[7])])]
+    i = t.index('D') + 2
+    while i < len(t) and t[i] == 'L':
+        nc = int(t[i + 1]); i += 2
+        chords = []
+        for _ in range(nc):
+            nk = int(t[i]); chords.append('(' + ' '.join(nm(x) for x in t[i + 1:i + 1 + nk]) + ')'); i += 1 + nk
+        no = int(t[i + 1]); i += 2
+        outs = [kinds[int(t[i + 2 * j])] + nm(t[i + 2 * j + 1]) for j in range(no)]
+        i += 2 * no
+        out.append(' '.join(chords) + ' => ' + ' '.join(outs))
+    ht = h.split()
+    ev = ['%s:%s' % ({'p': 'd', 'r': 'u', 't': 't'}[ht[j]], ht[j + 1] if ht[j] == 't' else nm(ht[j + 1])) for j in range(1, len(ht) - 1, 2)]
+    return ' | '.join(out) + ' || ' + ' '.join(ev)
+
+
+def _c20_norm(out):
+    # the harness appends input-shape fingerprints after ' #' (matched by KNOWN_FINDINGS records only)
+    return out.split(' #', 1)[0]
+
+
+PROPS['C20'] = {
+    'lean_modules': ['KVerif.Props.C20'],
+    'norm_impl': _c20_norm,
+    'oracle_project': _c20_project,
+    'nontrivial': _c20_nontrivial,
+    'shrink_candidates': _c20_shrink,
+    'describe': _c20_describe,
+    'rule': 'generated dictionaries (disjoint / overlapping-extending / follow-up / mixed; lower, upper, AltGr, Shift+AltGr, no-erase and backspace outputs; expansions sharing prefixes) x every line x every permutation of its last chord (quick: 6 of the 24 orders of 4-key chords, thorough: all) x modifiers held (none, lsft, rsft, ralt, lsft+ralt, both shifts) x press gaps incl. the boundary values deadline-1 / deadline / deadline+1 x optional plain typing before (idle time at / below / above idle-reactivate-time) and after (incl. punctuation); two lines one after the other; random press/release/tick histories over the dictionary keys plus modifiers and ignored keys; plain typing of keys in no chord; the forced-reset boundary (9990..10010 idle ticks); a corpus with one witness per recorded finding; SubsetMap insert/lookup sequences (exhaustive up to 2 insertions — thorough: 3 — of subsets of a 4-key universe with all 16 lookups, plus random sequences of up to 6). non-trivial = a chord fired (the OS trace has a backspace the user did not type, or more key-downs than presses) / a SubsetMap case with at least one insertion; distinct = distinct case line',
+    'stats': _c20_stats,
+    'trusted_base': ['Model/Zippy.lean as a transcription of zippychord.rs, subset.rs, the dictionary loop of cfg/zippychord.rs and the press/release path of a pass-through layout (checked differentially, not proved)',
+                     'Model/TextBuf.lean + Model/ZippySpec.lean: the reading of "text visible in the receiving application" and of the property statement',
+                     'runner/props.py _c20_project: the same text-buffer semantics applied to the implementation trace',
+                     'harness rendering of a structured dictionary to the zippy file text and output-character-mappings (str_to_oscode cross-checked per character)'],
+    'assumptions': ['i16 counters are unbounded integers in the model (overflow needs a >32767-character expansion)',
+                    'dead keys are not interpreted: no-erase outputs are compared at trace level only (the specification is silent on dictionaries containing them)',
+                    'caps-word: the flag is an input of the model tick and is false in every generated history; zippy_shift_restored covers caps-word states, the text theorems assume it off',
+                    'the path from Kanata to zippychord is modelled for a pass-through layout only ((defsrc)(deflayer base)): one queued event per tick, keys pressed/released in order',
+                    'specification domain: see the header of lean/KVerif/Model/ZippySpec.lean (silent on ignored keys, no-erase outputs, expansions deleting text they did not type, empty expansions)',
+                    'binary_search_by on the sorted per-item vectors of SubsetMap is modelled as a linear search'],
+}
